@@ -35,7 +35,8 @@ ANCHORS = [
 RULE = (
     "pairs (expected, actual) of def headers: exhaustive over all headers with <= N parameters (all kind sequences "
     "po* pk* [vp] ko* [vk], all legal default patterns; N=2 quick, 3 thorough) x all ways of sharing parameter names "
-    "between the two headers, then seeded random pairs of up to 5 parameters, then typed pairs (each parameter and "
+    "between the two headers, the corpus (witnesses of every exception class) and seeded small edits of the corpus "
+    "pairs (tag / default / kind / name / parameter dropped or inserted), then seeded random pairs of up to 5 parameters, then typed pairs (each parameter and "
     "the return annotated with one of none/object/int/bool/float/str, biased towards shape-compatible pairs); a pair "
     "is non-trivial when both headers have a parameter; distinct = distinct pair text. Only pairs the implementation "
     "accepts enter the property search; unannotated parameters are gradual and never count as a type mismatch"
@@ -172,7 +173,7 @@ def mutate(rng, E):
 def gen_pairs(ctx):
     """Returns list of (E, A) with E, A = (typed params, ret)."""
     pairs = []
-    maxn = ctx.n(2, 3)
+    maxn = 3 if ctx.big() else 2   # structural switch: follows the tier only
     sigs = c05.all_sigs(maxn)
     n_exh = 0
     for E in sigs:
@@ -214,6 +215,73 @@ def gen_pairs(ctx):
         pairs.append(((E, er), (A, ar)))
         k += 1
     return pairs
+
+
+def valid(ps):
+    """A well-formed def header: kinds in def order, at most one *args / **kw, positional defaults form a
+    suffix, names distinct, *args / **kw without default."""
+    order = [KINDS.index(p[1]) for p in ps]
+    if order != sorted(order) or order.count(2) > 1 or order.count(4) > 1:
+        return False
+    if len({p[0] for p in ps}) != len(ps):
+        return False
+    seen = False
+    for n, k, d, t in ps:
+        if k in ("vp", "vk") and d:
+            return False
+        if k in ("po", "pk"):
+            if seen and not d:
+                return False
+            seen = seen or bool(d)
+    return True
+
+
+def perturb(rng, E, A):
+    """One small edit of a pair: change a tag / default / kind / name, drop or duplicate-with-new-name a
+    parameter, change a return tag. Returns None when the result is not a def header."""
+    (ep, er), (ap, ar) = E, A
+    side = rng.random() < 0.5
+    ps = [list(p) for p in (ep if side else ap)]
+    op = rng.randrange(7)
+    names = sorted({p[0] for p in ep + ap} | {"q"})
+    if op == 6 or not ps:
+        if side:
+            er = rng.choice(TAGS)
+        else:
+            ar = rng.choice(TAGS)
+    else:
+        i = rng.randrange(len(ps))
+        if op == 0:
+            ps[i][3] = rng.choice(TAGS)
+        elif op == 1:
+            ps[i][2] = 1 - ps[i][2]
+        elif op == 2:
+            ps[i][1] = rng.choice(KINDS)
+            ps.sort(key=lambda p: KINDS.index(p[1]))
+        elif op == 3:
+            ps[i][0] = rng.choice(names)
+        elif op == 4:
+            ps.pop(i)
+        elif op == 5:
+            ps.insert(i, [rng.choice(names), ps[i][1], ps[i][2], rng.choice(TAGS)])
+    ps = tuple(tuple(p) for p in ps)
+    if not valid(ps):
+        return None
+    return ((ps, er), A[0:1] + (ar,)) if side else (E[0:1] + (er,), (ps, ar))
+
+
+def neighbourhood(ctx, seeds, n):
+    out = []
+    guard = 0
+    while len(out) < n and seeds and guard < 20 * n:
+        guard += 1
+        E, A = ctx.rng.choice(seeds)
+        for _ in range(ctx.rng.choice([1, 1, 2, 3])):
+            nxt = perturb(ctx.rng, E, A)
+            if nxt is not None:
+                E, A = nxt
+        out.append((E, A))
+    return out
 
 
 def ref_accept(E, A):
@@ -551,9 +619,9 @@ def evaluate(ctx, pairs, with_model=True, e2e_every=None, spec_every=7):
     checker = pya.make_checker()
     n = len(pairs)
     if e2e_every is None:
-        e2e_every = max(1, n // ctx.n(1500, 12000))
+        e2e_every = max(1, n // ctx.n(900, 12000))
     unit, ent1, ent2 = unit_and_entry(pairs, checker, lambda i: True)
-    e2e_idx = [i for i in range(n) if i % e2e_every == 0 or unit[i] == "1" and i % max(1, e2e_every // 6) == 0]
+    e2e_idx = [i for i in range(n) if i % e2e_every == 0 or unit[i] == "1" and i % max(1, e2e_every // 3) == 0]
     proto, ovr = e2e_routes([pairs[i] for i in e2e_idx])
     proto_at = dict(zip(e2e_idx, proto))
     ovr_at = dict(zip(e2e_idx, ovr))
@@ -637,15 +705,19 @@ def malformed(ctx):
             ctx.disagree("malformed", {"line": l}, "bad-op expected", o)
 
 
+def all_pairs(ctx):
+    corpus = corpus_pairs()
+    return corpus + neighbourhood(ctx, corpus, ctx.n(4000, 60000)) + gen_pairs(ctx)
+
+
 def run(ctx):
-    pairs = corpus_pairs() + gen_pairs(ctx)
-    evaluate(ctx, pairs)
+    evaluate(ctx, all_pairs(ctx))
     overload_stream(ctx, pya.make_checker(), c05.all_sigs(3), True)
     malformed(ctx)
 
 
 def run_impl_only(ctx):
-    evaluate(ctx, corpus_pairs() + gen_pairs(ctx), with_model=False)
+    evaluate(ctx, all_pairs(ctx), with_model=False)
 
 
 def replay(ctx, data):
